@@ -481,6 +481,18 @@ class NetworkServiceAccessPoint(ServiceAccessPoint, Server, DebugContents):
             # pass this new path along to the cache
             self.router_info_cache.update_router_info(adapter.adapterNet, npdu.pduSource, [snet])
 
+            # packets waiting for a path to this network can go now, the same
+            # as when the router answers the Who-Is-Router-To-Network (see
+            # NetworkServiceElement.IAmRouterToNetwork), otherwise they and
+            # everything sent to that network later stay parked while the
+            # path is known
+            pending_npdus = self.pending_nets.pop(snet, None)
+            if pending_npdus:
+                if _debug: NetworkServiceAccessPoint._debug("    - %d pending to %r", len(pending_npdus), snet)
+                for pending_npdu in pending_npdus:
+                    pending_npdu.pduDestination = npdu.pduSource
+                    adapter.process_npdu(pending_npdu)
+
         # check for destination routing
         if (not npdu.npduDADR) or (npdu.npduDADR.addrType == Address.nullAddr):
             if _debug: NetworkServiceAccessPoint._debug("    - no DADR")
